@@ -298,7 +298,9 @@ pub fn mutate(rng: &mut Rng, wire: &mut Vec<u8>, recs: &[Rec]) -> &'static str {
         3 => { let c = rng.usize_below(wire.len()); wire.truncate(c); "truncate" }
         4 => { let k = rng.usize_below(wire.len()); wire[k] ^= 1 << rng.below(8); "bit-flip" }
         5 => { // a length prefix announcing a huge pair inside the first Params record
-            if let Some((i, _)) = recs.iter().enumerate().find(|(i, r)| r.rtype == T_PARAMS && r.content.len() >= 8 && *i < offs.len()) { let o = offs[i] + 8; wire[o] = 0xff; wire[o + 1] = 0xff; wire[o + 2] = 0xff; wire[o + 3] = 0xff; } "huge-length-prefix" }
+            if let Some((i, _)) = recs.iter().enumerate().find(|(i, r)| r.rtype == T_PARAMS && r.content.len() >= 8 && *i < offs.len()) { let o = offs[i] + 8; wire[o] = 0xff; wire[o + 1] = 0xff; wire[o + 2] = 0xff; wire[o + 3] = 0xff;
+                // half of the time BOTH prefixes are near 2^31: their sum plus the header bytes passes 2^32
+                if rng.chance(1, 2) { for k in 4..8 { wire[o + k] = 0xff; } wire[o + 7] = *rng.pick(&[0xffu8, 0xf9, 0xf8, 0xf0]); } } "huge-length-prefix" }
         6 => { if let Some((i, _)) = recs.iter().enumerate().find(|(i, r)| r.rtype == T_BEGIN && *i < offs.len()) { wire[offs[i] + 5] = *rng.pick(&[0u8, 7, 9, 16]); } "begin-wrong-length" }
         7 => { if let Some((i, _)) = recs.iter().enumerate().find(|(i, r)| r.rtype == T_BEGIN && *i < offs.len()) { wire[offs[i] + 2] = 0; wire[offs[i] + 3] = 0; } "begin-id-0" }
         8 => { if let Some((i, _)) = recs.iter().enumerate().find(|(i, r)| r.rtype == T_BEGIN && *i < offs.len()) { wire[offs[i] + 8] = rng.next() as u8; wire[offs[i] + 9] = rng.next() as u8; } "begin-unknown-role" }
